@@ -36,7 +36,7 @@ COQCHK = ["Properties.C10"]
 RULE = ("pairs of nested values (depth <= 3, width <= 4; atoms None/bool/int/half-integer float/str/bytes incl. quotes, backslash, "
         "newline, tab, DEL, Latin-1 and non-UTF-8 bytes; list/tuple/dict/set/frozenset): 30% edit scripts of 1-3 edits, 15% dict-rooted "
         "values with 1-4 key add/delete/rekey/replace edits, 25% atom "
-        "lists related by insert/delete/replace/move/dup planted under 0-2 levels, 10% independent values, 6% 2-4 sets at different paths "
+        "lists related by insert/delete/replace/move/dup planted under 0-2 levels, 6% independent values, 4% lists of rows shifted by an insertion in front with one row edited (paired at different indexes under ignore_order), 6% 2-4 sets at different paths "
         "(dict values / list items / nested) each gaining and losing members, 6% ONE set / frozenset object shared by 2-3 places of t1 (and sometimes of t2) "
         "with member changes at each place, 8% one planted set pair; plus 5 fixed multi-container pairs and 3 fixed shared-set pairs; "
         "x {ordered, ignore_order, ignore_order+report_repetition} x verbose_level {0,1,2} x view {text,tree} "
@@ -433,6 +433,19 @@ def chain_problems(lv, a, b):
         cur = d
     if cur is not lv:
         bad.append(("updown", "the reported level is not the leaf of its chain"))
+    # path(output_format='list') on each side = the parameters of that side's relationships from the root
+    # (the other side's where a relationship is missing), read off the links here, not through path()
+    for use_t2 in (False, True):
+        want, cur = [], root
+        while cur is not lv and cur is not None:
+            r = (cur.t2_child_rel or cur.t1_child_rel) if use_t2 else (cur.t1_child_rel or cur.t2_child_rel)
+            if r is None:
+                break
+            want.append(r.param)
+            cur = cur.down
+        got = lv.path(output_format="list", use_t2=use_t2)
+        if len(got) != len(want) or any(not (g is w or same(g, w)) for g, w in zip(got, want)):
+            bad.append(("path", "path(output_format='list', use_t2=%r) is %r, the links say %r" % (use_t2, got, want)))
     return bad, info
 
 
@@ -606,6 +619,8 @@ def check_mode(ctx, a, b, mode, kw, cfg):
         ctx.seen((repr(a), repr(b), mode, verbose, cfg.get("thr")), nontrivial=bool(tp))
         for kind, _p, _x, _y, _np, _lv in tp:
             ctx.count("levels:" + kind)
+            if _np is not None:
+                ctx.count("levels_with_new_path:" + mode.split(":")[0])
         # ---- chains (both objects' trees); options such as ignore_string_case replace the compared objects,
         #      so the identity clauses are stated for the plain modes only ----
         for which, tree in ((("tree-view", dr), ("text-view .tree", dt.tree)) if cfg.get("chains", True) else ()):
@@ -910,6 +925,18 @@ def jsonmap_component(rng, d, rep, verbose, es_expr, rs_expr):
     return ("sx_c10_jsonmap %s %s %s %d %s %s" % (iso, dm, "true" if rep else "false", verbose, es_expr, rs_expr), exp)
 
 
+def delta_keys_ok(*vals):
+    """the delta observer (deltacommon.delta_obs) PARSES the path strings of the payload: keep to keys whose printed
+    path parses back (C09's guard path_ok: no str key holding both quote characters - finding K5 of C09)"""
+    for v in vals:
+        for x in walk_values(v):
+            if isinstance(x, dict):
+                for k in x:
+                    if isinstance(k, str) and "'" in k and '"' in k:
+                        return False
+    return True
+
+
 def delta_view_of(a, b, kw):
     from deepdiff import DeepDiff
     return dict(DeepDiff(a, b, view="_delta", **kw))
@@ -996,9 +1023,10 @@ def c10_case(rng, a, b, thr, verbose, dt, dr):
         D.coq_udiff_table(D.udiff_table(a, b)), ops, D.coq_cfg(False, thr, True), V.to_coq(a), V.to_coq(b))
     parts = [("sx_c10 %d r" % verbose, exp)]
     if verbose == 1:
-        cv = DC.conv_table(DC.type_change_pairs(dr))
-        dv = delta_view_of(a, b, {"threshold_to_diff_deeper": thr})
-        parts.append(("sx_c10_delta %s %s %s %s r" % (cv, ops, V.to_coq(a), V.to_coq(b)), ["delta", DC.delta_obs(dv)]))
+        if delta_keys_ok(a, b):
+            cv = DC.conv_table(DC.type_change_pairs(dr))
+            dv = delta_view_of(a, b, {"threshold_to_diff_deeper": thr})
+            parts.append(("sx_c10_delta %s %s %s %s r" % (cv, ops, V.to_coq(a), V.to_coq(b)), ["delta", DC.delta_obs(dv)]))
         for lv in pick_levels(rng, dr):
             try:
                 parts.append(level_component(lv))
@@ -1034,9 +1062,10 @@ def io_case(rng, a, b, verbose, dt, dr):
         D.coq_udiff_table(D.udiff_table(a, b)), D.coq_cfg(False, 0.33), c05.coq_pairs_table(tbl), V.to_coq(a), V.to_coq(b))
     parts = [("sx_c10_es %d (fst r)" % verbose, exp)]
     if verbose == 1:
-        cv = DC.conv_table(DC.type_change_pairs(dr))
-        dv = delta_view_of(a, b, {"ignore_order": True})
-        parts.append(("sx_c10_delta_io %s false %s %s r" % (cv, V.to_coq(a), V.to_coq(b)), ["delta_io", DC.delta_io_obs(dv)]))
+        if delta_keys_ok(a, b):
+            cv = DC.conv_table(DC.type_change_pairs(dr))
+            dv = delta_view_of(a, b, {"ignore_order": True})
+            parts.append(("sx_c10_delta_io %s false %s %s r" % (cv, V.to_coq(a), V.to_coq(b)), ["delta_io", DC.delta_io_obs(dv)]))
         for lv in pick_levels(rng, dr, 1):
             try:
                 parts.append(level_component(lv))
@@ -1086,9 +1115,10 @@ def rep_case(rng, a, b, verbose, dt, dr):
     rs = "(map (fun x => (rpath x, rold x, rnew x)) (snd r))"
     parts = [("sx_c10_rep %d (fst r) %s" % (verbose, rs), exp)]
     if verbose == 1:
-        cv = DC.conv_table(DC.type_change_pairs(dr))
-        dv = delta_view_of(a, b, {"ignore_order": True, "report_repetition": True})
-        parts.append(("sx_c10_delta_io %s true %s %s r" % (cv, V.to_coq(a), V.to_coq(b)), ["delta_io", DC.delta_io_obs(dv)]))
+        if delta_keys_ok(a, b):
+            cv = DC.conv_table(DC.type_change_pairs(dr))
+            dv = delta_view_of(a, b, {"ignore_order": True, "report_repetition": True})
+            parts.append(("sx_c10_delta_io %s true %s %s r" % (cv, V.to_coq(a), V.to_coq(b)), ["delta_io", DC.delta_io_obs(dv)]))
         h = item_hasher(a, b)
         parts.append(("SL [sx_bool (aligned hexhash %s %s %s); sx_bool (sibinj hexhash %s %s)]" % (IO_CFG, V.to_coq(a), V.to_coq(b), IO_CFG, V.to_coq(a)),
                       [bool(aligned_py(a, b, h)), bool(sibinj_py(a, h))]))
@@ -1193,9 +1223,20 @@ def gen_pairs(ctx, n):
             x, y, _k = V.gen_atom_list_pair(rng, maxlen=8)
             t1, t2 = V.plant(rng, rng.choice([0, 0, 1, 2]), (x, y))
             ctx.count("gen:atom_list_edit")
-        elif r < 0.8:
+        elif r < 0.76:
             t1, t2 = gen_val(rng, 3, 3), gen_val(rng, 3, 3)
             ctx.count("gen:independent")
+        elif r < 0.8:
+            # rows shifted by an insertion / deletion in front, one row edited, sometimes shuffled: with ignore_order the
+            # paired rows sit at different indexes (new_path in the text and delta views)
+            x, y = V.gen_row_list_pair(rng)
+            if rng.random() < 0.5:
+                y = list(y)
+                rng.shuffle(y)
+            if rng.random() < 0.5:
+                x, y = [list(q) for q in x], [list(q) for q in y]
+            t1, t2 = V.plant(rng, rng.choice([0, 0, 1]), (x, y))
+            ctx.count("gen:shifted_rows")
         elif r < 0.86:
             t1, t2 = gen_multi_sets(rng)
             ctx.count("gen:multi_sets")
